@@ -148,7 +148,13 @@ def read_all(hr: dsgen.HistoryRunner, ds=None) -> dict:
 def oracle_c08(hr: dsgen.HistoryRunner, stats) -> None:
     st = hr.st
     fresh = hr.sio.Dataset(hr.root)
-    got = read_all(hr, fresh)
+    for who, handle in (("reopened", fresh), ("kept", hr.ds)):
+        _c08_compare(hr, stats, read_all(hr, handle), who)
+    stats["c08_evaluations"] += 1
+
+
+def _c08_compare(hr, stats, got, who) -> None:
+    st = hr.st
     for split in set(got) | set(hr.model.committed):
         have = got.get(split, [])
         err = dsgen.check_examples(have, st["attrs"], st["fmt"])
@@ -161,9 +167,9 @@ def oracle_c08(hr: dsgen.HistoryRunner, stats) -> None:
             extra = sorted((seen - want).elements())
             raise Violation(
                 "C08", "lost_examples" if missing else "extra_examples",
-                f"session {hr.session_no} split {split}: missing {missing[:8]}"
-                f" extra {extra[:8]}")
-    stats["c08_evaluations"] += 1
+                f"session {hr.session_no} split {split} ({who} handle): "
+                f"missing {missing[:8]} extra {extra[:8]}",
+                key={"handle": who})
 
 
 def oracle_c08_create(hr: dsgen.HistoryRunner, stats) -> None:
